@@ -147,3 +147,77 @@ def run_parse(prop, texts, impl_lines, limit):
     problems = ["the parser model evaluated inside Coq differs from the implementation on %r" % texts[i]
                 for i, g in zip(idx, got) if g != "true"]
     return dict(cases=len(idx), agree=len(idx) - len(problems), problems=problems[:5])
+
+
+def opt_cases(shard, limit, max_calls=1200):
+    """zero-temperature cases (exp is then only applied to infinities / NaN, pow not at all)"""
+    out, cur = [], None
+    zero = "0000000000000000"
+    for l in open(shard):
+        t = l.rstrip("\n").split(" ")
+        k = t[0]
+        if k == "K":
+            cur = dict(spec=l[2:].rstrip("\n"), H=[], D=[], C=[], F=None, O="", B=None, P=[])
+        elif cur is None:
+            continue
+        elif k == "B":
+            cur["B"] = t[1:8]
+        elif k == "P":
+            cur["P"] = t[1:]
+        elif k == "H":
+            cur["H"].append(t[1:4])
+        elif k == "D":
+            cur["D"].append(t[1:4])
+        elif k == "C":
+            cur["C"].append((t[1], t[2:]))
+        elif k == "F":
+            cur["F"] = t[1:]
+        elif k == "O":
+            cur["O"] = " ".join(t[1:])
+        elif k == "E":
+            b = cur["B"]
+            # kt_start = +0: build never calls pow (its branch needs 0 < kt_start) and exp only sees infinities / NaN
+            if (b and b[1] == zero and cur["O"] == "ok" and cur["F"] is not None
+                    and 2 <= len(cur["C"]) <= max_calls and "reuse=1" not in cur["spec"]):
+                out.append(cur)
+                if len(out) >= limit:
+                    break
+            cur = None
+    return out
+
+
+def run_opt(prop, shard, limit, ocaml_verdicts):
+    cases = opt_cases(shard, limit)
+    if not cases:
+        return dict(cases=0, agree=0, problems=[])
+    head = HEAD.replace("model.Parse model.Geom", "model.Parse model.Geom model.Optimiser")
+    body = [head]
+    fo = lambda h: "None" if h in ("-", "N") else "(Some %s)" % flit(h)  # noqa
+    for i, c in enumerate(cases):
+        b = c["B"]
+        builder = "(@mkBuilder NumF %s%%N %s %s %s %s %s%%N %s)" % (b[0], flit(b[1]), fo(b[2]), fo(b[3]), flit(b[4]), b[5], fo(b[6]))
+        ps = "[" + "; ".join(flit(h) for h in c["P"]) + "]"
+        hs = "[" + "; ".join("@mkHandle NumF %s%%nat %s %s %s" % (h[0], flit(h[1]), flit(h[2]), flit(c["P"][int(h[0])])) for h in c["H"]) + "]"
+        # the model consumes one draw per proposal; give it exactly the draws the run can use
+        nd = max(0, len(c["C"]) + 4)
+        draws = "[" + "; ".join("@mkDraw NumF %s%%nat %s %s" % (d[0], flit(d[1]), flit(d[2])) for d in c["D"][:nd]) + "]"
+        rec = "[" + "; ".join("(%s, [%s])" % (fo(sc), "; ".join(flit(h) for h in vec)) for sc, vec in c["C"]) + "]"
+        fin = "[" + "; ".join(flit(h) for h in c["F"]) + "]"
+        body.append("Definition ok_%d := opt_case_ok %s %s %s %s %s %s.\n" % (i, builder, ps, hs, draws, rec, fin))
+    body.append("Eval vm_compute in [%s].\n" % "; ".join("ok_%d" % i for i in range(len(cases))))
+    rc, out = coqc_eval(prop, "coqeval_opt", "".join(body))
+    if rc != 0:
+        return dict(cases=len(cases), agree=0, problems=["coqc failed on the generated evaluation file: " + out[-600:]])
+    got = re.findall(r"\b(true|false)\b", out.split("=", 1)[1] if "=" in out else out)
+    if len(got) != len(cases):
+        return dict(cases=len(cases), agree=0, problems=["could not read %d results from coqc (%d found)" % (len(cases), len(got))])
+    problems = []
+    agree = 0
+    for c, g in zip(cases, got):
+        v = ocaml_verdicts.get(c["spec"], "?")
+        if g == "true":
+            agree += 1
+        elif v.startswith("OK"):
+            problems.append("the optimiser model evaluated inside Coq does not reproduce the recorded run although the "
+                            "extracted model does - the extraction path is suspect: " + c["spec"][:200])
+    return dict(cases=len(cases), agree=agree, problems=problems)
